@@ -91,7 +91,9 @@ def _utf8(b):
 def serverinfo_sweep(ctx):
     rng = ctx.rng
     cases = []
-    words = [b"8BITMIME", b"SMTPUTF8", b"STARTTLS", b"AUTH", b"PLAIN", b"LOGIN", b"XOAUTH2", b"auth", b"Plain", b"x", b"", b" ", b"\t", b"\xc2\xa0", b"\xe2\x80\x83"]
+    words = [b"8BITMIME", b"SMTPUTF8", b"STARTTLS", b"AUTH", b"PLAIN", b"LOGIN", b"XOAUTH2", b"auth", b"Plain", b"x", b"", b" ", b"\t", b"\xc2\xa0", b"\xe2\x80\x83",
+             # names that contain a known name are other names
+             b"PLAIN-CLIENTTOKEN", b"MSLOGIN", b"X-LOGIN-TOKEN", b"XOAUTH2-BETA", b"XOAUTH", b"LOGINX", b"APLAIN", b"AUTH=PLAIN", b"AUTHX", b"STARTTLSX", b"X8BITMIME", b"SMTPUTF8X"]
     # all lines made of up to 3 words from the table joined by single separators
     seps = [b" ", b"\t", b"  "]
     for n in range(0, 4):
